@@ -194,8 +194,8 @@ theorem runProposalMsgs_ghost (hc : execInCacheCtx = true) (ms : List Msg) (s : 
 
 theorem dropInactive_ledger {s s' : State} {pid : Nat} (hsh : inactiveSettleShapeOk = true) (h : Ledger s)
     (hd : dropInactive pid s = .ok s') : Ledger s' := by
-  unfold dropInactive at hd
-  simp only [refundRun_eq, burnRun_eq] at hd
+  rw [dropInactive_eq] at hd
+  unfold dropInactiveSpec at hd
   split at hd
   · cases hd
   · simp only [hsh, if_true] at hd
@@ -302,7 +302,8 @@ theorem step_ledger (h1 : inactiveSettleShapeOk = true) (h2 : settleShapeOk = tr
     simp only [step, Model.C15.ofExcept]
     split
     · rename_i s' hs
-      unfold submit at hs
+      rw [submit_eq] at hs
+      unfold submitSpec at hs
       split at hs
       · cases hs
       · split at hs
@@ -341,7 +342,8 @@ theorem step_ledger (h1 : inactiveSettleShapeOk = true) (h2 : settleShapeOk = tr
     simp only [step, Model.C15.ofExcept]
     split
     · rename_i s' hs
-      unfold vote at hs
+      rw [vote_eq] at hs
+      unfold voteSpec at hs
       split at hs
       · cases hs
       · split at hs
